@@ -330,6 +330,13 @@ def whole_eval(sg, data, SymmetryConstraints, ExpandAsymmetricUnit):
     UU = [numpy.array(Us[i]) for i in order]
     scs = SymmetryConstraints(sg, P, UU) if eps is None else SymmetryConstraints(sg, P, UU, eps=eps)
     vals = {n: Fraction(float(v)).limit_denominator(10 ** 12) for n, v in scs.Upars}
+    # a query must not change the object: the pruned formulas are asked for first, the full ones must still be complete
+    before = [dict(d) for d in scs.UFormulas()]
+    scs.UFormulasPruned()
+    after = [dict(d) for d in scs.UFormulas()]
+    if before != after:
+        k = [i for i, (a, b) in enumerate(zip(before, after)) if a != b][0]
+        return "after a call of UFormulasPruned() the U formulas of listed site %d are %r (before: %r)" % (k, after[k], before[k])
     for i, fm in enumerate(scs.UFormulas()):
         if not isinstance(fm, dict) or set(fm) != set(USYM):
             return "Ueqns[%d] is %r: the U formulas of a listed site are missing" % (i, fm)
